@@ -1073,7 +1073,12 @@ func (c *controller) getImageForMessageRef(
 		imageFromProtoOptions = append(imageFromProtoOptions, bufimage.WithNoReparse())
 	case buffetch.MessageEncodingYAML:
 		// No need to apply validation - Images do not use protovalidate.
-		resolver, err := bootstrapResolver(protoencoding.NewYAMLUnmarshaler(nil), data)
+		// The first pass has no Resolver for custom options, so it must not fail on them,
+		// the same as the first pass for JSON and txtpb.
+		resolver, err := bootstrapResolver(
+			protoencoding.NewYAMLUnmarshaler(nil, protoencoding.YAMLUnmarshalerWithDiscardUnknown()),
+			data,
+		)
 		if err != nil {
 			return nil, err
 		}
